@@ -44,6 +44,14 @@ pub enum Case {
     Writer {
         ops: Vec<WOp>,
     },
+    /// two writers one after the other in the same process: what one writer
+    /// went through (how large it grew, that it was patched) must not reach
+    /// the next
+    #[serde(rename = "Writers")]
+    Writers {
+        first: Vec<WOp>,
+        second: Vec<WOp>,
+    },
     /// a SliceReader over a slice of 2^32 + `extra` octets (zero except for
     /// the position-dependent marker octets); requests around the 32-bit mark
     Huge { extra: u32, ops: Vec<HOp> },
@@ -642,6 +650,18 @@ impl Scenario for C18 {
             }
             ctx.check::<C18>(&case);
         }
+        // a writer that grew large and was patched, then a new writer whose
+        // first append is larger still (sizes rise with the run index, so
+        // that within one worker process each is the largest so far)
+        if ctx.run % 4 == 1 {
+            let n = 600 + (ctx.run % 30_000) as usize * 2 + rng.urange(0, 1);
+            let at = rng.urange(0, n - 2);
+            let first = vec![WOp::Bytes(vec![0xA5; n]), WOp::At(rng.bytes(2), at)];
+            let more = rng.urange(1, 300);
+            let mut second = vec![WOp::Bytes(rng.bytes(n + more))];
+            second.extend(gen_writer_ops(rng).into_iter().take(4));
+            ctx.check::<C18>(&Case::Writers { first, second });
+        }
         // a slice longer than 2^32 octets (one run in eight)
         if ctx.run % 8 == 0 {
             let case = gen_huge(rng);
@@ -657,6 +677,22 @@ impl Scenario for C18 {
                 run_reader_ops(&mut r, data, ops, obs, 0)
             }
             Case::Writer { ops } => run_writer_ops(ops, obs),
+            Case::Writers { first, second } => {
+                obs.count("probe:writer-after-a-large-patched-writer");
+                run_writer_ops(first, obs).map_err(|mut f| {
+                    f.detail = format!("first of two writers: {}", f.detail);
+                    f
+                })?;
+                run_writer_ops(second, obs).map_err(|mut f| {
+                    f.class = format!("second-writer:{}", f.class);
+                    f.detail = format!(
+                        "second of two writers in one process (the first grew to {} octets and was patched): {}",
+                        first.iter().map(|o| if let WOp::Bytes(b) = o { b.len() } else { 0 }).sum::<usize>(),
+                        f.detail
+                    );
+                    f
+                })
+            }
         }
     }
     fn shrink(case: &Case) -> Vec<Case> {
@@ -707,6 +743,31 @@ impl Scenario for C18 {
                         data: d,
                         ops: ops.clone(),
                     });
+                }
+            }
+            Case::Writers { first, second } => {
+                out.push(Case::Writer { ops: second.clone() });
+                for i in (0..second.len()).rev() {
+                    if second.len() > 1 {
+                        let mut o = second.clone();
+                        o.remove(i);
+                        out.push(Case::Writers { first: first.clone(), second: o });
+                    }
+                }
+                // smaller sizes, same relation
+                if let (Some(WOp::Bytes(a)), Some(WOp::Bytes(b))) = (first.first(), second.first()) {
+                    for n in [512usize, 600, 1024, a.len() / 2] {
+                        if n >= 512 && n < a.len() {
+                            let mut f2 = first.clone();
+                            f2[0] = WOp::Bytes(vec![0xA5; n]);
+                            if let Some(WOp::At(x, _)) = f2.get(1).cloned() {
+                                f2[1] = WOp::At(x, 0);
+                            }
+                            let mut s2 = second.clone();
+                            s2[0] = WOp::Bytes(vec![0x5A; n + (b.len() - a.len().min(b.len())).max(1)]);
+                            out.push(Case::Writers { first: f2, second: s2 });
+                        }
+                    }
                 }
             }
             Case::Writer { ops } => {
